@@ -1,7 +1,7 @@
 """C06 -- schema verdict is the order-independent conjunction of its rules' verdicts.
 
 T-space: every sequence (= every permutation of every sub-multiset) of 0..n rules from a
-12-rule pool x 17 documents; relational oracle on the implementation's own rule tests,
+12-rule pool x 20 documents; relational oracle on the implementation's own rule tests,
 permutation invariance across the sequences of one multiset, absolute reference model.
 """
 import itertools
@@ -14,14 +14,14 @@ from valida.schema import Schema
 
 META = {
     "rule": "every ordered sequence of 0..n rules (n=2 quick, 4 thorough) from a 10-rule cast-free pool "
-            "(path lengths 0,0,1,1,1,1,1,1,2,2,1,1 with ties; '1' vs 1 keys) x 17 documents; a case is one (multiset of rules, "
+            "(path lengths 0,0,1,1,1,1,1,1,2,2,1,1 with ties; '1' vs 1 keys) x 20 documents; a case is one (multiset of rules, "
             "document) with all its permutations; non-trivial = at least two rules and at least one failure "
             "or one untested rule",
     "assumptions": ["the layout of the failure report is not judged: it must be a str and, when there are "
                     "failures, some line must contain the elements of each failing path in order",
                     "frac_rules_tested is compared for schemas with >= 1 rule only (undefined for the empty schema)"],
-    "bounds": {"quick": {"rules_per_schema": "0-2", "documents": 17},
-               "thorough": {"rules_per_schema": "0-4", "documents": 17}},
+    "bounds": {"quick": {"rules_per_schema": "0-2", "documents": 20},
+               "thorough": {"rules_per_schema": "0-4", "documents": 20}},
 }
 
 L = T.leaf
@@ -45,6 +45,8 @@ DOCS = [
     {"c": [1, 2]}, {"z": 0}, [1, 2], [0], {0: 1}, {"a": None}, {"a": 1, "b": 2, "c": 3, "d": 4},
     {"a": {"b": 1}, "c": [0, 0]}, {"1": "x", 1: 5, "a": 2}, [7, "y"], {"1": 5, 1: "x"},
     {"a": 1.5, 1: None, None: [1], "b": {}, 2.5: 0.5}, {"c": [0, "x", -1, None, [1]], None: None},
+    # keys that equal the indices / keys failing above but differ in type (0 == False == 0.0, 1 == True == 1.0)
+    [None, None], {False: 2, True: None}, {0.0: None, 1.0: "q"},
 ]
 
 
